@@ -39,8 +39,7 @@ type piRec struct {
 func c13Run(c *runner.Ctx) {
 	r := c.R
 	w, _, err := c05World(c)
-	if err != nil {
-		c.Note("world construction failed (C01/C02/C04's business): " + firstLine(err.Error()))
+	if w = usable(c, w, err); w == nil {
 		return
 	}
 	defer w.Close()
